@@ -11,6 +11,9 @@ def source(ctx):
     comp.require_modelled("C29")
     ex = one_config(comp, "C29")
     w = need_body(ex, "write", "C29", comp.site)
+    from . import excl
+
+    excl.exclusive(ctx, "C29", "StreamSource", w)
     valid, ready, payload = pat("self.o.valid"), pat("self.o.ready"), pat("self.o.payload")
     check_ready(ctx, "C29.source-write-ready", comp, ex, w, f_or(f_not(A(valid)), A(ready)), "write ready iff the output register is empty or is being accepted this cycle")
     t = decision_table(ex, valid, sync=True)
@@ -33,6 +36,9 @@ def sink(ctx):
     comp.require_modelled("C29")
     ex = one_config(comp, "C29")
     r, p = need_body(ex, "read", "C29", comp.site), need_body(ex, "peek", "C29", comp.site)
+    from . import excl
+
+    excl.exclusive(ctx, "C29", "StreamSink", r)
     valid, ready, payload = pat("self.i.valid"), pat("self.i.ready"), pat("self.i.payload")
     for b in (r, p):
         check_ready(ctx, f"C29.sink-{b.owner[2]}-ready", comp, ex, b, A(valid), f"{b.owner[2]} ready iff valid")
